@@ -26,7 +26,8 @@ ApiSchema ==
      DSec("m", {"MULTI"}, << DInt("x", "5") >>),
      DSec("sec", {}, << DInt("x", "5"), DIntList("l", <<>>) >>),
      DInt("vi", "1"), DStr("vs", "q"),
-     DBool("fn", "true"), DFloat("vf", "1.5") >>
+     DBool("fn", "true"), DFloat("vf", "1.5"),
+     DSec("box", {"TITLE"}, << DInt("x", "5") >>) >>
   ELSE
   << DInt("i", "7"), DStr("s", "d"), DIntList("l", <<"1","2">>), DStrList("sl", <<>>),
      DBool("b", "false"), DFloat("f", "1.5"),
@@ -34,7 +35,8 @@ ApiSchema ==
      DSec("m", {"MULTI"}, << DInt("x", "5") >>),
      DSec("sec", {}, << DInt("x", "5"), DIntList("l", <<>>) >>),
      WithCb(DInt("vi", "1"), {"valid2"}), WithCb(DStr("vs", "q"), {"valid2"}),
-     DFunc("fn", "user"), WithCb(DFloat("vf", "1.5"), {"valid2"}) >>
+     DFunc("fn", "user"), WithCb(DFloat("vf", "1.5"), {"valid2"}),
+     DSec("box", {"TITLE"}, << DInt("x", "5") >>) >>
 
 (* optional text parsed before the calls (Pre = 1): populates sections and pointers *)
 PreToks ==
@@ -83,6 +85,8 @@ Calls ==
     Call("rmnsec", <<>>, "i", 0, "", <<>>),
     Call("rmtsec", <<>>, "t", 0, "a", <<>>),    Call("rmtsec", <<>>, "t", 0, "zz", <<>>),
     Call("rmtsec", <<>>, "m", 0, "a", <<>>),
+    Call("rmtsec", <<>>, "t", 0, "A", <<>>),    Call("addtsec", <<>>, "t", 0, "A", <<>>),
+    Call("setint", <<[oi |-> 14, ii |-> 1]>>, "x", 0, "6", <<>>),
     Call("setint", T1, "x", 0, "8", <<>>),      Call("addlist", T1, "tl", 0, "", <<"z">>),
     Call("setint", SEC, "x", 0, "6", <<>>),     Call("addlist", SEC, "l", 0, "", <<"1">>),
     Call("setint", <<>>, "vi", 0, "4", <<>>),   Call("setstr", <<>>, "vs", 0, "r", <<>>),
